@@ -266,3 +266,22 @@ func init() {
 	prop("C16", "C16-R6")
 	prop("C05", "C16-R6")
 }
+
+func init() {
+	prop("C01", "C01-R11")
+	prop("C20", "C01-R11")
+	prop("C03", "C03-R6")
+	prop("C07", "C03-R6")
+	prop("C04", "C04-R9")
+	prop("C06", "C06-R5")
+	prop("C04", "C06-R5")
+	prop("C08", "C08-R4")
+	prop("C01", "C08-R4")
+	prop("C06", "C06-R7")
+	prop("C11", "C06-R7")
+	prop("C16", "C16-R7")
+}
+
+func init() {
+	prop("C11", "C13-R8/join")
+}
